@@ -48,7 +48,8 @@ Proof. exact reader_budget. Qed.
 Print Assumptions C09_budget.
 
 (* (3) after any history, a readline result has no CRLF other than at its
-   end, and a result not ending in CRLF has the length of the caller's limit,
+   end, is never longer than the caller's limit,
+   and a result not ending in CRLF has the length of the caller's limit,
    or the input is exhausted (nothing buffered, declared length used up), or
    the last underlying read returned nothing (end of stream / no data now) *)
 Theorem C09_readline_crlf_and_cut :
@@ -57,10 +58,18 @@ Theorem C09_readline_crlf_and_cut :
     run fuel block cs (init body n shorts) = (rs, s, ok) ->
     readline fuel block k s = Ok r s' q ->
     (forall i, crlf_at r i -> (i + 2)%nat = List.length r) /\
+    (0 <= k -> len r <= k) /\
     (ends_crlf r \/ (0 <= k /\ len r = k) \/ exhausted s' \/
      exists q0 j, q = q0 ++ [(j, 0)]).
 Proof. exact reader_lines. Qed.
 Print Assumptions C09_readline_crlf_and_cut.
+
+(* ... and read(size) with a size >= 0 never returns more than size bytes *)
+Theorem C09_read_within_limit :
+  forall block size s r s' q,
+    0 <= size -> read block size s = Ok r s' q -> len r <= size.
+Proof. exact read_within_limit. Qed.
+Print Assumptions C09_read_within_limit.
 
 (* (4) liveness as a fuel bound: with more fuel than the declared length and
    than every size argument, every call of every history returns, whatever
